@@ -12,23 +12,29 @@ Section Queries2.
 
   Lemma parent_above s a p :
     Inv2 H ct s -> live s a -> attached s a -> parent s a = Some p ->
-    a < p /\ live s p /\ attached s p /\ In a (skids s p).
+    live s p /\ attached s p /\ In a (skids s p).
   Proof.
     intros [HR [HK [HP HL]]] Hl Ha Hp. destruct (parent_attached _ _ _ HR Hp) as [Hpa _].
     assert (Hlp : live s p) by (apply attached_reg in Hpa; apply HR in Hpa; tauto).
     destruct (HL a Hl Ha) as [_ Hs _ _]. destruct (Hs p Hp) as [f [_ Hin]].
     assert (Hk : In a (skids s p)) by (eapply edge_kid; exact Hin).
-    split; [apply HK; exact Hk|]. auto.
+    auto.
   Qed.
 
   Lemma ancestors_total s : Inv2 H ct s ->
-    forall n a, live s a -> attached s a -> List.length (heap s) - a < n ->
+    forall n a, live s a -> attached s a -> (forall i, i + n < S (List.length (heap s)) -> ~ depth_le s i a) ->
       exists l, ancestors n s a = Some l /\ forall x, In x l -> attached s x /\ live s x /\ reach s x a.
   Proof.
-    intros HI. induction n; intros a Hl Ha Hn; [lia|]. simpl.
+    (* the walk up passes through nodes with longer and longer chains below them; rank_depth bounds those *)
+    intros HI. assert (HK : Rank s) by (destruct HI as [_ [A _]]; exact A).
+    induction n; intros a Hl Ha Hn.
+    { exfalso. apply (Hn (List.length (heap s))); [lia | apply rank_depth; exact HK]. }
+    simpl.
     destruct (parent s a) as [p|] eqn:Hp.
-    - destruct (parent_above _ _ _ HI Hl Ha Hp) as [Hlt [Hlp [Hpa Hk]]].
-      destruct (IHn p Hlp Hpa) as [l [El Hall]]; [unfold live in *; lia|].
+    - destruct (parent_above _ _ _ HI Hl Ha Hp) as [Hlp [Hpa Hk]].
+      destruct (IHn p Hlp Hpa) as [l [El Hall]].
+      { intros i Hi Hd. destruct i as [|i]; simpl in Hd; [exact (Hd a Hk)|].
+        apply (Hn i); [lia | apply Hd; exact Hk]. }
       rewrite El. exists (p :: l). split; [reflexivity|].
       intros x [<-|Hx]; [split; [exact Hpa | split; [exact Hlp | apply reach_kid; exact Hk]]|].
       destruct (Hall x Hx) as [A [B C]]. split; [exact A | split; [exact B|]].
@@ -41,7 +47,7 @@ Section Queries2.
     exists l, ancestors (fuel_of s) s a = Some l /\ chain_up s a l /\ get_depth s a = Some (List.length l) /\
               forall x, In x l -> attached s x /\ live s x /\ reach s x a.
   Proof.
-    intros HI Hl Ha. destruct (ancestors_total s HI (fuel_of s) a Hl Ha) as [l [El Hall]]; [unfold fuel_of; lia|].
+    intros HI Hl Ha. destruct (ancestors_total s HI (fuel_of s) a Hl Ha) as [l [El Hall]]; [unfold fuel_of; intros i Hi; lia|].
     exists l. split; [exact El|]. split; [eapply ancestors_chain; exact El|]. split; [|exact Hall].
     unfold get_depth. rewrite El. reflexivity.
   Qed.
